@@ -79,20 +79,40 @@ def run_case(case, rec, ssj=None):
             call['n_jobs'] = rng.choice([2, 3])
         tk = T.make_tokenizer(tok)
         flt = T.make_filter(ssj, fspec, tk)
+        selfjoin = rng.random() < 0.12
+        if selfjoin:
+            # the SAME DataFrame object is both tables; the two filter attributes differ
+            R = L
+            C = gen.random_candset(rng, L, L, 'lid', 'lid')
+            C['cols'] = ['_id', 'l_lid', 'r_rid'] + C['cols'][3:]
+            C['data']['r_rid'] = C['data'].pop('r_lid')
+            if 'r_lid' in C.get('dtypes', {}):
+                C['dtypes']['r_rid'] = C['dtypes'].pop('r_lid')
+            L = dict(L)
+            L['data'] = dict(L['data'])
+            L['cols'] = list(L['cols']) + ['lattr2']
+            vals = list(L['data']['lattr'])
+            rng.shuffle(vals)
+            L['data']['lattr2'] = vals
+            L['dtypes'] = dict(L['dtypes'], lattr2=L['dtypes'].get('lattr', 'object'))
+            R = L
+            call.update(ltable=L, rtable=L, candset=C, r_key='lid', r_attr='lattr2')
         Cdf = T.make_table(C)
         objs = {'tok': tk, 'filter': flt, 'candset': Cdf}
+        if selfjoin:
+            objs['ltable'] = objs['rtable'] = T.make_table(L)
         try:
             out = T.exec_call(ssj, call, objs)
         except Exception as e:
             rec.count('calls_raised')
             rec.add('raised', '%s: %s' % (type(e).__name__, str(e)[:80]))
             return {'present': 0, 'call': call}
-        lrow = dict((model.canon_cell(k), i) for i, k in enumerate(T.column(L, 'lid')))
-        rrow = dict((model.canon_cell(k), i) for i, k in enumerate(T.column(R, 'rid')))
+        lrow = dict((model.canon_cell(k), i) for i, k in enumerate(T.column(L, call['l_key'])))
+        rrow = dict((model.canon_cell(k), i) for i, k in enumerate(T.column(R, call['r_key'])))
         mask, present = [], 0
         for x in range(T.spec_len(C)):
-            lv = L['data']['lattr'][lrow[model.canon_cell(C['data']['l_lid'][x])]]
-            rv = R['data']['rattr'][rrow[model.canon_cell(C['data']['r_rid'][x])]]
+            lv = L['data'][call['l_attr']][lrow[model.canon_cell(C['data']['l_lid'][x])]]
+            rv = R['data'][call['r_attr']][rrow[model.canon_cell(C['data']['r_rid'][x])]]
             if not (model.is_missing(lv) or model.is_missing(rv)):
                 present += 1
             mask.append(not flt.filter_pair(lv, rv))
